@@ -379,25 +379,44 @@ func (e *Env) quant(x *EQuant) Val {
 	var decl []string
 	for _, qv := range x.Vars {
 		var typ types.Type = types.Typ[types.Int]
-		if qv.Type != "" && qv.Type != "int" {
+		srt := ""
+		if strings.HasPrefix(qv.Type, "(") || qv.Type == "Slice" || qv.Type == "Iface" {
+			srt = qv.Type // a raw SMT sort
+			typ = nil
+		} else if qv.Type != "" && qv.Type != "int" {
 			if t := r.resolveType(e.pkg, qv.Type); t != nil {
 				typ = t
 			} else {
 				return e.fail("unknown type %q in quantifier", qv.Type)
 			}
 		}
+		if srt == "" {
+			srt = sortOf(typ)
+		}
 		r.ctx.nfresh++
 		name := fmt.Sprintf("q.%s!%d", qv.Name, r.ctx.nfresh)
-		decl = append(decl, fmt.Sprintf("(%s %s)", name, sortOf(typ)))
-		ne.vars[qv.Name] = termVal(Term{name, sortOf(typ)}, typ)
+		decl = append(decl, fmt.Sprintf("(%s %s)", name, srt))
+		ne.vars[qv.Name] = termVal(Term{name, srt}, typ)
 	}
 	body := ne.evalBool(x.Body)
+	var pats []string
+	for _, t := range x.Triggers {
+		ps, ok := r.liftForPattern(ne.term(ne.eval(t)).S, decl)
+		if !ok {
+			pats = nil // a trigger we cannot express: let the solver choose
+			break
+		}
+		pats = append(pats, ps)
+	}
 	if ne.err != nil && e.err == nil {
 		e.err = ne.err
 	}
 	q := "exists"
 	if x.Forall {
 		q = "forall"
+	}
+	if len(pats) > 0 {
+		return termVal(Term{fmt.Sprintf("(%s (%s) (! %s :pattern (%s)))", q, strings.Join(decl, " "), body.S, strings.Join(pats, " ")), SBool}, types.Typ[types.Bool])
 	}
 	return termVal(Term{fmt.Sprintf("(%s (%s) %s)", q, strings.Join(decl, " "), body.S), SBool}, types.Typ[types.Bool])
 }
@@ -507,6 +526,20 @@ func (e *Env) call(x *ECall) Val {
 		un := "unbox." + sanitize(sortOf(typ))
 		r.ctx.DeclareOnce(un, fmt.Sprintf("(declare-fun %s (Int) %s)", un, sortOf(typ)))
 		return termVal(app(sortOf(typ), un, ifVal(t)), typ)
+	case "row":
+		// row(s): the backing array of slice s (an SMT array indexed by absolute position)
+		if !argN(1) {
+			return e.fail("row")
+		}
+		v := e.eval(x.Args[0])
+		var et types.Type = types.Typ[types.Uint8]
+		if v.Typ != nil {
+			if s, ok := v.Typ.Underlying().(*types.Slice); ok {
+				et = s.Elem()
+			}
+		}
+		comp, _ := r.elemComp(et)
+		return termVal(Select(r.heapGet(e.state(), comp), slBase(e.term(v))), nil)
 	case "bytes_at":
 		// bytes_at(base, j): byte j of the backing array identified by base
 		if !argN(2) {
@@ -851,4 +884,57 @@ func (e *Env) evalBoolParts(x Expr) []Term {
 		}
 	}
 	return []Term{e.evalBool(x)}
+}
+
+// liftForPattern makes a term usable as a quantifier pattern: boolean structure (ite and friends) is not allowed
+// in patterns, so every (ite ...) sub-term that does not mention a bound variable is given a name.
+func (r *Run) liftForPattern(s string, decl []string) (string, bool) {
+	var bound []string
+	for _, d := range decl {
+		// "(name Sort)"
+		if k := strings.IndexByte(d, ' '); k > 1 {
+			bound = append(bound, d[1:k])
+		}
+	}
+	for iter := 0; iter < 20; iter++ {
+		k := strings.Index(s, "(ite ")
+		if k < 0 {
+			break
+		}
+		depth := 0
+		end := -1
+		for i := k; i < len(s); i++ {
+			if s[i] == '(' {
+				depth++
+			} else if s[i] == ')' {
+				depth--
+				if depth == 0 {
+					end = i + 1
+					break
+				}
+			}
+		}
+		if end < 0 {
+			return "", false
+		}
+		sub := s[k:end]
+		for _, b := range bound {
+			if strings.Contains(sub, b) {
+				return "", false
+			}
+		}
+		// the sort of the ite is the sort of its branches: find it from a fresh definition via the solver's own
+		// inference is not possible here, so name it through a declared constant with an equation
+		name := r.ctx.nameFor(sub)
+		if name == "" {
+			return "", false
+		}
+		s = s[:k] + name + s[end:]
+	}
+	for _, bad := range []string{"(not ", "(and ", "(or ", "(=> ", "(= ", "(<= ", "(< ", "(>= ", "(> "} {
+		if strings.Contains(s, bad) {
+			return "", false
+		}
+	}
+	return s, true
 }
